@@ -3,7 +3,7 @@
      chain [sent, stages: sequence of [name, cls, npol, len], nslots, sps, npol, inv, high, decoded, eye_open]
              stages are the real objects after DAC, MZM, (DM|FIBER), PD, SAMPLER; `high` = SAMPLER(...) > mid-threshold as bits
      dsp   [fn, sent, decoded]            packaged decision routines (ook.DSP, ppm.DSP soft / hard)
-     ber   [k, n, reported_ppm]           BER_analizer('counter') * 1e6 for k injected flips                      *)
+     ber   [k, n, count, exact]           BER_analizer('counter') * n (an integer) for k injected flips                      *)
 EXTENDS Integers, Sequences, TLC, Json, IOUtils
 Trace == ndJsonDeserialize(IOEnv.IN_FILE)
 Want(e, name) == CASE name = "DAC" -> [cls |-> "E", npol |-> 1, len |-> e.nslots * e.sps]
@@ -19,8 +19,7 @@ Clauses(e) ==
         (IF Len(e.high) # Len(e.sent) THEN {"one-decision-per-slot"} ELSE IF Decoded(e.high, e.inv) # e.sent THEN {"decoded-bits"} ELSE {}) \cup
         (IF e.decoded # e.sent THEN {"decoded-bits-api"} ELSE {})
     [] e.kind = "dsp" -> IF e.decoded # e.sent THEN {e.fn} ELSE {}
-    [] e.kind = "ber" -> IF e.reported_ppm * e.n # 1000000 * e.k /\ (e.reported_ppm * e.n - 1000000 * e.k > e.n \/ 1000000 * e.k - e.reported_ppm * e.n > e.n)
-                         THEN {"BER-counter"} ELSE {}
+    [] e.kind = "ber" -> IF ~e.exact \/ e.count # e.k THEN {"BER-counter"} ELSE {}       \* reported value * n is the integer k
 Bad == UNION {{<<i, c>> : c \in Clauses(Trace[i])} : i \in 1..Len(Trace)}
 ASSUME JsonSerialize(IOEnv.OUT_FILE, [n |-> Len(Trace), bad |-> Bad])
 =============================================================================
